@@ -13,7 +13,8 @@ from .sym import PI_AXIOMS, str_distinct_axioms
 
 RLIMIT_FEAS = int(os.environ.get("PYVC_RLIMIT_FEAS", "2000000"))
 RLIMIT_PROVE = int(os.environ.get("PYVC_RLIMIT_PROVE", "60000000"))
-TIMEOUT_MS = int(os.environ.get("PYVC_TIMEOUT_MS", "60000"))
+TIMEOUT_MS = int(os.environ.get("PYVC_TIMEOUT_MS", "20000"))
+FALLBACK_S = int(os.environ.get("PYVC_FALLBACK_S", "10"))
 
 
 @dataclass
@@ -112,13 +113,13 @@ def prove(assumptions, goal, *, want_model=True, fallbacks=True, generic_inputs=
     if fallbacks:
         smt2 = "(set-logic ALL)\n" + s.to_smt2()
         for name, cmd in (
-            ("cvc5-1.0.3", ["/usr/bin/cvc5", "--lang=smt2", "--tlimit=30000", "--nl-cov"]),
-            ("z3-4.8.12", ["/usr/bin/z3", "-T:30"]),
+            ("cvc5-1.0.3", ["/usr/bin/cvc5", "--lang=smt2", f"--tlimit={FALLBACK_S * 1000}", "--nl-cov"]),
+            ("z3-4.8.12", ["/usr/bin/z3", f"-T:{FALLBACK_S}"]),
         ):
             if not os.path.exists(cmd[0]):
                 continue
             tried.append(name)
-            res = _external(smt2, cmd, 40)
+            res = _external(smt2, cmd, FALLBACK_S + 10)
             if res == "unsat":
                 return Verdict("proved", name, time.time() - t0, tried=tried)
             if res == "sat":
